@@ -71,6 +71,20 @@ def main():
                                   ntraces=2 if quick else 20, length=50 if quick else 150, subargs=True,
                                   seed=ck.seed * 1000 + 400 + len(hplan), structure=False))
     tracecheck.run_histories(ck, hplan, structure_judge=False)
+    # 4. the same promise when the container lives in a database: histories of reads and writes with commits, aborts and
+    #    cache sweeps between the calls (growth phases over 15 keys: trees of three and four levels) - every result as the
+    #    sorted map says (TraceEvict: results from Layer A, structure from Persist; D18 attributed by the specification)
+    from harness.checks.c05 import validate_evict
+    from harness import jobs
+    eplan = []
+    for fam in (['OO', 'LF'] if quick else ['II', 'OO', 'LF', 'fs', 'OI', 'QQ']):
+        for impl in ('c', 'py'):
+            for is_set in (True, False):
+                for (lf, it) in (((2, 2), (2, 3)) if quick else ((2, 2), (2, 3), (3, 2))):
+                    eplan.append(dict(fam=fam, impl=impl, is_set=is_set, leaf=lf, internal=it, nkeys=15, grow=True,
+                                      ntraces=8 if quick else 100, length=50 if quick else 90, pure=(impl == 'py'),
+                                      seed=ck.seed * 100000 + 7000 + len(eplan), emb='mid'))
+    validate_evict(ck, jobs.run_jobs('harness.workers.evict_worker', eplan, pure=True))
     ck.assumptions += ['keys of one container are mutually comparable',
                        'model keys/values are embedded order-preservingly into each family (harness/embed.py)',
                        'node sizes >= 2']
